@@ -10,12 +10,14 @@ position the previous one stopped at); get_global_error_estimate, set_benefit an
 from the result vector, the per-object numbers and the raw log of integrand evaluations.  The property predicate (oracle_adaptive)
 judges every call by the limits its own arguments express, on the implementation alone."""
 import json
+import os
+import sys
 import random
 import time
 from fractions import Fraction
 
 from .. import sx
-from ..impl import run_impl
+from ..impl import run_impl, CaseTimeout
 from ..model import run_model
 from . import _adaptive as A
 from . import _legs as LG
@@ -205,6 +207,8 @@ def _run_adaptive(case, legs, keep_points, reuse=None, options=True):
         sa.refinements_for_recalculate = case['recalc_every']
     del f.log[:]                                      # evaluations of THIS run (the function cache is reset by initialize())
     events, evals = [], []
+    t_run = time.time()
+    cur_leg = [None]
     orig_eval, orig_refine = sa.evaluate_operation, sa.refine
     mark = [0]
     # evaluation_points: the driver evaluates the ANALYTIC model there (operation.eval_analytic -> f.eval, for the interpolation
@@ -214,8 +218,29 @@ def _run_adaptive(case, legs, keep_points, reuse=None, options=True):
     def nlog():
         return len(set(f.log) - skip) if skip else len(set(f.log))
 
+    def alarm_inside_run():
+        leg, last = cur_leg[0], (evals[-1] if evals else None)
+        try:
+            n = min(last['fdict'], last['distinct']) if last else 0
+            overrun = last is not None and leg is not None and (
+                (leg.get('max') is not None and n > leg['max']) or
+                (A.unfl(last['err']) <= float(leg.get('tol', -1.0)) and n >= leg.get('min', 1)))
+        except Exception:
+            overrun = True
+        if not overrun:
+            raise RuntimeError('harness budget exceeded (per-case alarm after %d s, %d evaluations of the driver, stop rule of the leg not met yet)' % (time.time() - t_run, len(evals)))
+
     def ev():
-        r = orig_eval()
+        t_step = time.time()
+        try:
+            r = orig_eval()
+        except CaseTimeout:
+            # the per-case alarm fired while the driver was legitimately still refining (e.g. the B-spline / Lagrange global grids
+            # cost O(2^depth) per weight computation on a deep 1D refinement, every step slower than the one before): that is the
+            # cost of library steps outside the driver. It is a violation only if the numbers of the LAST completed evaluation
+            # already met the stop rule of the current leg (the loop should have stopped and went on) - then 'timeout' stands.
+            alarm_inside_run()
+            raise
         objs = A.all_objects(sa)
         rec = dict(err=A.fl(r[0]), sur=A.fl(r[1]), distinct=nlog(), fdict=int(f.get_f_dict_size()),
                    result=A.vec(op.integral), benefit_max=A.fl(sa.benefit_max), total_error=A.fl(sa.total_error),
@@ -234,13 +259,18 @@ def _run_adaptive(case, legs, keep_points, reuse=None, options=True):
         events.append(1)
         if evals:
             evals[-1]['distinct_after'] = nlog()      # incl. what the interpolation at evaluation_points evaluated after the evaluation
-        return orig_refine()
+        try:
+            return orig_refine()
+        except CaseTimeout:
+            alarm_inside_run()
+            raise
     sa.evaluate_operation = ev
     sa.refine = rf
     kw = perform_options(case) if options else {}
     out = []
     for i, leg in enumerate(legs):
         e0, v0 = len(events), len(evals)
+        cur_leg[0] = leg
         n_final = len(f.log)
         if i == 0:
             r = LG.call_perform(sa, eo, case, leg, **kw)
